@@ -505,7 +505,6 @@ def calibrate() -> list[dict]:
                     "ct_call": int(ct_call), "nret": st[t]["nret"], "tmps": tmps, "ctmps": 0, "rows": rows,
                     "nested": nested, "comptime": int(comptime), "raises": 0})
     ENGINE.reset()
-    # compile-time tmps, bottom-up over the (acyclic) pool call graph
     by = {o["name"]: o for o in out}
 
     def closure(t, seen):
@@ -526,6 +525,12 @@ def calibrate() -> list[dict]:
             cl = closure(t, set()) - {t}
             if not cl <= set(done):
                 continue
+            # names drawn by a whole successful `check` beyond the pool definitions involved belong to library
+            # functions written in Guppy (Range.__next__ ...) that are re-checked in every session: attribute
+            # them to this definition
+            b0 = ctr.n
+            if op_check(t)["kind"] == "ok":
+                o["tmps"] = (ctr.n - b0) - sum(by[x]["tmps"] for x in cl)
             b0 = ctr.n
             r = op_lower(t)
             total = ctr.n - b0
@@ -539,6 +544,9 @@ def calibrate() -> list[dict]:
                     # names drawn before the raise are attributed to the definition itself
                     o["ctmps"] = total - o["tmps"] - sum(by[x]["tmps"] for x in cl)
                 done[t] = o["ctmps"]
+    for o in out:  # a broken engine can make the arithmetic above go negative; the model takes naturals
+        o["tmps"], o["ctmps"] = max(0, o["tmps"]), max(0, o["ctmps"])
+        o["rows"] = [[max(0, x) for x in r] for r in o["rows"]]
     return out
 
 
@@ -600,7 +608,7 @@ if __name__ == "__main__":
         outs = [run_op(o) for o in req["ops"]]
         if req.get("tmp_reset_before_target"):
             COUNTER.n = 0  # diagnosis only: is the %tmp counter the cause of a difference?
-        print(json.dumps({"ops": outs, "final": op_lower(req["target"])}))
+        print(json.dumps({"ops": outs, "final": run_op([req.get("observe", "lower"), req["target"]])}))
     elif sys.argv[1] == "fresh":
         import feed  # noqa: F401  (bootstrap)
         out = {}
